@@ -672,7 +672,7 @@ class Interp:
             a = Adt("LocalKey", [])
             a.tl_name = tl.group(1)
             return a
-        pm = re.fullmatch(r"(.+)::(\w+)::promoted\[(\d+)\]", s)
+        pm = re.fullmatch(r"(.+?)::(\w+(?:::\{closure#\d+\})*)::promoted\[(\d+)\]", s)
         if pm:
             # a promoted constant of function <..>::name: evaluate its MIR item
             suffix = f"::{pm.group(2)}::promoted[{pm.group(3)}]"
@@ -694,6 +694,12 @@ class Interp:
             vs = self.enums.get(en)
             if vs and var in vs:
                 return Enum(var, vs.index(var), fields)
+        if len(segs) == 1:
+            # a bare variant name (MIR of a crate that imported the enum's variants): unique across the known enums?
+            owners = [en for en, vs in self.enums.items() if vs and segs[0] in vs and en not in ("Option", "Result")]
+            if len(owners) == 1 and segs[0] not in ("Some", "None", "Ok", "Err"):
+                vs = self.enums[owners[0]]
+                return Enum(segs[0], vs.index(segs[0]), fields)
         if segs and segs[-1] in ("Some", "None"):
             return Enum(segs[-1], 1 if segs[-1] == "Some" else 0, fields)
         if segs and segs[-1] in ("Ok", "Err"):
